@@ -104,6 +104,8 @@ func newStdSvc(v stdVariant) (*stdSvc, error) {
 			{Dests: []string{"*.wtls.test"}, Protocol: "TLS", NextHop: ip(24) + ":5070"},
 			// a literal listed after a wildcard that covers it: the literal must still win
 			{Dests: []string{"lit.wudp.test"}, Protocol: "udp", NextHop: ip(22) + ":5070"},
+			// a literal destination written with capital letters, next hop by a capitalised host-table name
+			{Dests: []string{"Static-Caps.Corp.test"}, Protocol: "udp", NextHop: "Hop-B.Corp.test:5070"},
 			// a next hop on a port beyond 32767
 			{Dests: []string{"static-high.test"}, Protocol: "udp", NextHop: fmt.Sprintf("%s:%d", ip(24), s.high)},
 			// a wildcard meant for IPv4 To hosts
@@ -111,6 +113,8 @@ func newStdSvc(v stdVariant) (*stdSvc, error) {
 		},
 		Hosts: [][2]string{
 			{"proxy-a.test", ip(1)}, {"proxy-b.test", ip(2)}, {"proxy-c.test", ip(3)},
+			// names an operator wrote with capital letters (the tables are looked up as written)
+			{"Proxy-A.Corp.test", ip(1)}, {"Proxy-B.Corp.test", ip(2)}, {"Proxy-C.Corp.test", ip(3)}, {"Hop-B.Corp.test", ip(21)},
 			{"hop-a.test", ip(20)}, {"hop-b.test", ip(21)}, {"hop-c.test", ip(25)},
 			{"ua-a.test", ip(10)}, {"ua-b.test", ip(11)}, {"foreign.test", ip(60)},
 		},
@@ -336,6 +340,9 @@ func c03OwnRoute(rt *rapid.T, s *stdSvc, L *mTransport) ANameAddr {
 	switch rapid.IntRange(0, 2).Draw(rt, "ownform") {
 	case 1:
 		u.Host = []string{"proxy-a.test", "proxy-b.test", "proxy-c.test"}[L.Entry]
+		if rapid.Bool().Draw(rt, "alias written with capitals") {
+			u.Host = []string{"Proxy-A.Corp.test", "Proxy-B.Corp.test", "Proxy-C.Corp.test"}[L.Entry]
+		}
 	case 2:
 		if L.Port == 5060 {
 			u.Port = 0
